@@ -306,7 +306,7 @@ def strat_diffusion(ctx):
 RULE = RULE + " " + ('Since seeded round 4 one third of the runs use a drawn units system for the script (11 space x 10 time x 10 amount units; totals are then compared to 1e-9 x sum of magnitudes because reported amounts are converted floats), and one run in four re-uses an engine object that has just simulated another network on the same species and space (a first-order sink of the first species) before the measured run.')
 
 FACETS = [
-    Facet("laws", check_laws, strategy=strat_laws, examples=(900, 30000), shards=(12, 16), setup=sim.setup_plain),
-    Facet("laws_around_chemostat", check_laws, strategy=strat_around, examples=(400, 10000), shards=(8, 16), setup=sim.setup_plain),
+    Facet("laws", check_laws, strategy=strat_laws, examples=(1800, 40000), shards=(12, 16), setup=sim.setup_plain),
+    Facet("laws_around_chemostat", check_laws, strategy=strat_around, examples=(900, 16000), shards=(8, 16), setup=sim.setup_plain),
     Facet("diffusion", check_diffusion, strategy=strat_diffusion, examples=(500, 15000), shards=(4, 16), setup=sim.setup_plain),
 ]
